@@ -495,7 +495,12 @@ func (sess *session) Create(ctx context.Context, parent Fid, name string,
 		err = openLocked(ctx, &next, mode)
 		if err != nil { // Oops: Create has already succeeded
 						// - so now we have to delete everthing.
-			sess.delRef(ctx, parent, false)
+			// The parent entry was consumed by the successful Create and
+			// ref is locked by us (delRef would lock it again and never
+			// return): drop the fid and release the new entry instead.
+			sess.refs.Delete(parent)
+			ent.Clunk(ctx)
+			ref.Ent = nil
 			// Note: ignoring possible multiple errors
 			return fail(err.Error())
 		}
